@@ -1,32 +1,23 @@
-"""Per-property configuration for ./check and for tools/mkmanifest.py.
+"""Per-property configuration for ./check and tools/mkmanifest.py: one JSON file per claimed
+property in tools/reg/<id>.json.
 
-props            Lean modules holding the property theorems (built + audited)
-driver           lean_exe name of the model driver (None: no line-protocol correspondence)
-driver_root      Lean module of the driver (for the forbidden-token audit)
-harness          harness binary (harness/src/bin/<name>.rs)
-required_theorems  theorem names that must exist in the props modules (so a property theorem
-                 cannot be silently dropped)
+Keys:
+  title              property title
+  props              Lean modules holding the property theorems (built + audited)
+  driver             lean_exe name of the model driver (null: no line-protocol correspondence)
+  driver_root        Lean module of the driver (for the forbidden-token audit)
+  harness            harness binary (harness/src/bin/<name>.rs); null if none
+  required_theorems  theorem names that must exist in the props modules (so a property theorem
+                     cannot be silently dropped or renamed away)
+  technique, design_ref, level_text, level_note, modelled, assumptions, rule, partial
+  gen                names of tools/items/<name>.py generators the property depends on (informational)
 """
+import json, os, glob
 
-COMMON_MODELLED = [
-    "rustc/std/alloc collections are modelled (lists, multisets), not verified",
-]
-
-REG = {
-    "C21": dict(
-        title="The traversal queue keeps its ordering and coverage rules",
-        props=["AranyaV.Props.C21"], driver="drv_c21", driver_root="Driver.C21", harness="c21",
-        required_theorems=["pop_max", "peek_max", "push_rules", "push_dup_count", "pop_dups",
-                           "drain_above_spec", "drain_all_spec", "cover_up_to_spec", "reachable_onePerSeg"],
-        technique="Lean 4 proof (invariant by induction over operation sequences + decision rules) on a two-region model of TraversalQueue; differential correspondence real-vs-model and real-vs-multiset-oracle",
-        design_ref="DESIGN.md 6/C21",
-        level_text="Kernel-checked theorems for every queue state and every operation sequence (pop/peek return a maximum, one entry per segment, documented flag rules, exact drain sets, duplicate counts); model tied to the real TraversalQueue by seeded differential runs of the real code against the Lean driver and against a multiset oracle.",
-        level_note="Trusted: Lean kernel + propext/Classical.choice/Quot.sound; harness c21 + driver drv_c21; the model keeps the two regions as lists instead of Vec+partition index (index arithmetic of the swaps is covered by the correspondence, not by the theorems); the one-entry-per-segment theorem assumes push_duplicate is not mixed in (true of both call sites).",
-        modelled=["Vec<Location> + partition index modelled as two lists (uncovered, covered)"],
-        assumptions=["push_duplicate is not mixed with push/push_covered on the same segment"],
-        rule="random op sequences (3 modes: dedup pushes; duplicate pushes; both on disjoint segments) over small segment/max-cut alphabets; non-trivial = at least 3 ops; distinct by FNV of the op list",
-    ),
-}
+_d = os.path.join(os.path.dirname(os.path.abspath(__file__)), "reg")
+REG = {}
+for _p in sorted(glob.glob(os.path.join(_d, "C*.json"))):
+    REG[os.path.basename(_p)[:-5]] = json.load(open(_p))
 
 NOT_APPLICABLE = {
     "C27": "Panic-freedom of the pest/markdown/serde_yaml front ends and ~6k lines of AST-builder/compiler error paths: a Lean model is total by typing, so the claim is vacuous unless every panic site is transliterated (a re-implementation); fuzzing is a different technique family and is not substituted (DESIGN.md section 8).",
